@@ -34,6 +34,15 @@ def violations(lengths):
     return v
 
 
+def compressed_violations():
+    import zlib
+    c = zlib.compressobj(-1, zlib.DEFLATED, -15)
+    z = (c.compress(b'A' * 200) + c.flush(zlib.Z_SYNC_FLUSH))[:-4]
+    return [('RSV1 on a Ping (permessage-deflate negotiated; inflates to 200 bytes)', ref.server_frame(9, z, rsv1=1)),
+            ('RSV1 on a Pong (permessage-deflate negotiated)', ref.server_frame(10, z, rsv1=1)),
+            ('RSV1 on a Close (permessage-deflate negotiated)', ref.server_frame(8, z, rsv1=1))]
+
+
 def judge(name, run, nprefix):
     evs = run.events
     names = [e.name for e in evs]
@@ -82,6 +91,16 @@ def replay(obligation, extra):
                         return dict(found=True, input='%d valid messages, then: %s%s%s' % (nprefix, name, ' (one byte per read)' if cuts else '', '' if auto_pong else ' (auto_pong off)'),
                                     expected='prefix delivered, one ProtocolError, nothing after, non-graceful Disconnected, at most one Close written',
                                     observed=err, events=[harness.ev_summary(e) for e in run.events][-6:], stream=stream[:48].hex())
+    for name, bad in compressed_violations():
+        for auto_pong in (True, False):
+            tried += 1
+            run = harness.drive(stream=bad + ref.server_frame(1, b'after'), response_extra=b'Sec-WebSocket-Extensions: permessage-deflate\r\n',
+                                ws_kwargs=dict(compress=True), connect_kwargs=dict(ping_rate=0, auto_pong=auto_pong))
+            err = judge(name, run, 0)
+            if err:
+                return dict(found=True, input='%s%s' % (name, '' if auto_pong else ' (auto_pong off)'),
+                            expected='one ProtocolError, nothing of the frame delivered, non-graceful Disconnected',
+                            observed=err, events=[harness.ev_summary(e) for e in run.events][-4:])
     return dict(found=False, tried='%d runs: every violation class x 2 prefixes x 2 segmentations x auto_pong on/off' % tried)
 
 
